@@ -150,7 +150,9 @@ namespace options
 
                     while (std::getline(str, element, ';'))
                     {
-                        update_value(element);
+                        // taken verbatim, an element is not a command line token
+                        dirty_ = true;
+                        value_.push_back(element);
                     }
 
                     return;
